@@ -623,6 +623,14 @@ def run(ctx: Ctx) -> None:
     rule_r1_r2(ctx)
     rule_r3(ctx)
     rule_r4(ctx)
+    # a primitive's result is a function of its arguments and of the stream: whatever an implementation remembers between calls
+    # (a table of ranges it has seen) must be keyed by everything the remembered value depends on
+    ctx.rule("C18.R5", "primitives keep no memo whose key does not determine the remembered value (bounds of an earlier call must not leak into this one)")
+    from .common import memo_rule
+    prims = [m for c in list(ctx.prog.subclasses(RANDOM_SOURCE, strict=False)) + list(ctx.prog.subclasses(DECIDER, strict=False)) for m in c.methods.values()]
+    n5 = memo_rule(ctx, "C18.R5", {m.fullname: m for m in prims}.values())
+    ctx.ob("C18.R5", None, None, "methods of random sources and deciders scanned for memo tables", True, f"{len(prims)} methods, {n5} memo / cursor sites",
+           module="geneticengine/random")
     ctx.assumptions += [
         "random.Random.randint(a, b) returns an integer in [a, b]; random.Random.random() returns a float in [0, 1)",
         "gene lists are non-empty (representations create gene_length >= 1 genes)",
